@@ -79,6 +79,53 @@ Theorem C07_index_reuse_safe :
 Proof. exact index_reuse_safe. Qed.
 Print Assumptions C07_index_reuse_safe.
 
+(** ** Nothing is left behind: the tight form (reserved handshake slots included) *)
+Theorem C07_nothing_left_behind_all : forall st ops, Inv st -> nothing_left_behind (exec st ops).
+Proof. exact nothing_left_behind_all. Qed.
+Print Assumptions C07_nothing_left_behind_all.
+
+Theorem C07_tight_b_correct : forall st, tight_b st = true <-> nothing_left_behind st.
+Proof. exact tight_b_correct. Qed.
+Print Assumptions C07_tight_b_correct.
+
+Theorem C07_left_behind_free_bound :
+  forall st, nothing_left_behind st ->
+    (forall s, In s (st_sess st) -> usable s = true -> sess_bound st s) /\
+    (forall r, In r (st_recs st) -> rec_bound (st_fabs st) r) /\
+    (forall u, In u (st_subs st) -> sub_bound (st_fabs st) u).
+Proof. exact left_behind_free_bound. Qed.
+Print Assumptions C07_left_behind_free_bound.
+
+(** RemoveFabric answered OK: every session slot left on index i (reserved or not) is the
+    expired one the command arrived on *)
+Theorem C07_removal_purges_slots :
+  forall st sid i st', step st (ORemove sid i) = (st', StOk) ->
+    forall x, In x (st_sess st') -> s_fab x = i -> s_exp x = true.
+Proof. exact removal_purges_slots. Qed.
+Print Assumptions C07_removal_purges_slots.
+
+Theorem C07_rollback_purges_slots :
+  forall st o i fl, Inv st -> is_expiry o = true -> st_fs st = Armed i fl -> i <> 0 ->
+    fget i (st_kvfabs st) = None -> snd (step st o) = StOk ->
+    forall x, In x (st_sess (fst (step st o))) -> s_fab x = i -> s_exp x = true.
+Proof. exact rollback_purges_slots. Qed.
+Print Assumptions C07_rollback_purges_slots.
+
+(** the last step of a handshake whose slot was purged does nothing *)
+Theorem C07_finish_after_removal_void :
+  forall st sid, sget sid (st_sess st) = None ->
+    step st (OFinishFull sid) = (st, StGone) /\ step st (OFinishResume sid) = (st, StGone).
+Proof. exact finish_after_removal_void. Qed.
+Print Assumptions C07_finish_after_removal_void.
+
+(** a completed resumption rotates the record of a slot whose fabric is live, same incarnation *)
+Theorem C07_finish_only_live :
+  forall st sid st', Inv st -> step st (OFinishResume sid) = (st', StOk) ->
+    exists s f, sget sid (st_sess st) = Some s /\ s_res s = true /\
+                fget (s_fab s) (st_fabs st) = Some f /\ f_inc f = s_inc s.
+Proof. exact finish_only_live. Qed.
+Print Assumptions C07_finish_only_live.
+
 (** ** Use *)
 (** a request answered OK travelled on a usable session of the current incarnation and
     touched no other fabric index *)
@@ -205,3 +252,15 @@ Proof.
   apply (removed_is_gone (init_state 2 true) 3 2 (mkFabric 2 2 1 0));
     [apply invariant_init|reflexivity|vm_compute; reflexivity].
 Qed.
+
+(** a handshake caught in its last step: the administrator of fabric 2 (root 1) opens a
+    session (name 4, record 1), starts a resumption (reserved slot 5); the administrator of
+    fabric 1 removes fabric 2; SigmaFinished then finds no slot, and nothing is left behind *)
+Example finish_after_remove_is_void :
+  let ops := [OEstablish 1; OResumeBegin 1; ORemove 2 2] in
+  map fst (snd (run (init_state 2 true) ops)) = [StOk; StOk; StOk] /\
+  snd (step (exec (init_state 2 true) ops) (OFinishResume 5)) = StGone /\
+  tight_b (fst (step (exec (init_state 2 true) ops) (OFinishResume 5))) = true /\
+  (* without the removal the slot is there and the record is rotated *)
+  snd (step (exec (init_state 2 true) [OEstablish 1; OResumeBegin 1]) (OFinishResume 5)) = StOk.
+Proof. vm_compute. repeat split; reflexivity. Qed.
